@@ -1509,8 +1509,25 @@ def invalid_points(ctx, c, full):
         e.load_private_key(keys.SigningKey.from_secret_exponent(r.randrange(1, n), c))
         if not rejected(e.load_received_public_key_bytes, raw):
             acc.append("ECDH.load_received_public_key_bytes")
+        try:
+            if ecdsa_mod.point_is_valid(c.generator, x, y) is not False:
+                acc.append("ecdsa.point_is_valid")
+        except Exception as ex:   # noqa  (the predicate must answer False, not raise)
+            acc.append("ecdsa.point_is_valid raised %s" % type(ex).__name__)
         if acc:
             _fail(ctx, "invalid-point-accepted", data, "accepted by " + ", ".join(acc))
+    # ... and the predicate accepts what is valid: multiples of G (on cofactor-1 curves every curve point)
+    for _ in range(4 if full else 2):
+        k = r.choice([1, 2, n - 1, r.randrange(1, n)])
+        Pv = a_mul(k, G, p, a)
+        ctx.case(("valid-point", c.name, k))
+        try:
+            ok = ecdsa_mod.point_is_valid(c.generator, Pv[0], Pv[1])
+        except Exception as ex:   # noqa
+            ok = "raised %s" % type(ex).__name__
+        if ok is not True:
+            _fail(ctx, "valid-point-rejected", dict(cur, op="valid", kind="k*G", x=Pv[0], y=Pv[1]),
+                  "ecdsa.point_is_valid(%d*G) = %r" % (k, ok))
     # the INFINITY object and a point of another curve object
     if not rejected(keys.VerifyingKey.from_public_point, ec.INFINITY, c):
         _fail(ctx, "invalid-point-accepted", dict(cur, op="invalid", kind="INFINITY", x=None, y=None), "from_public_point(INFINITY)")
@@ -2127,8 +2144,19 @@ def replay(ctx, data):
                 raw = d["x"].to_bytes(L, "big") + d["y"].to_bytes(L, "big")
                 acc = not rejected(keys.VerifyingKey.from_string, raw, curve=c)
                 acc2 = not rejected(ecdsa_mod.Public_key, c.generator, ec.PointJacobi(cv, d["x"], d["y"], 1))
-                print("  from_string accepted:", acc, " Public_key accepted:", acc2, " (must both be False)")
-                rc |= acc or acc2
+                try:
+                    acc3 = ecdsa_mod.point_is_valid(c.generator, d["x"], d["y"]) is not False
+                except Exception:   # noqa
+                    acc3 = True
+                print("  from_string accepted:", acc, " Public_key accepted:", acc2, " point_is_valid:", acc3, " (must all be False)")
+                rc |= acc or acc2 or acc3
+            elif op == "valid":
+                try:
+                    ok = ecdsa_mod.point_is_valid(c.generator, d["x"], d["y"])
+                except Exception as ex:   # noqa
+                    ok = "raised %s" % type(ex).__name__
+                print("  point_is_valid of a multiple of G:", ok, " (must be True)")
+                rc |= ok is not True
             elif op == "ecdh":
                 e1, e2 = ecdh.ECDH(c), ecdh.ECDH(c)
                 pub1 = e1.load_private_key(keys.SigningKey.from_secret_exponent(d["d1"], c))
